@@ -1,9 +1,21 @@
 HOOK_COMMITS = ["0cc1f16"]
-FIX_COMMITS = ["f6ef902", "7953ad1", "5a73e74", "74bd988", "162c4e5", "d681b06", "d1e67ed", "f178a91"]
+FIX_COMMITS = ["f6ef902", "7953ad1", "5a73e74", "74bd988", "162c4e5", "d681b06", "d1e67ed", "f178a91", "418e2ff", "882956a", "d9c0ebc", "11b0018"]
 NOTES = "All checks: bin/check <ID> --tier quick|thorough [--replay file]; exit 0/1/2 (2 = TOOL-ERROR). See DESIGN.md."
 NOT_APPLICABLE = {}
 _EVAL_NOTE = "Program-level values of 32/64-bit types are restricted to magnitude < 2^30 (TLC integers); runs outside the modelled fragment are counted as out_of_model and not judged. The typed AST is the checker's (parser desugarings such as <= and op-assignment are already applied), so duplicated evaluation introduced by the parser is not visible in this direction. Trusted: the projection typed AST -> JSON (harness/src/proj.rs), JSON value -> Literal conversion, TLC."
 CHECKS = {
+    "C09": {
+        "text": "Layout.tla is the documented bit layout; Gen_Literals.tla enumerates the bounded type universe x boundary values and, for each value, the expected bits and the adversarial family of literal spellings with their denotation (canonical / same value / no value); the harness replays every spelling into literal_arg, set_literal, as_bits, from_unwrapped_bits, to_string+parse_arg, text perturbations and the identity program.",
+        "design_ref": "DESIGN.md §5 C09",
+        "note": "Type universe fixed in Gen_Literals.tla (all primitives, arrays of 0-3, tuples of 0-3, one struct, enums with 3 and 5 variants, one level of nesting in thorough); wide integer values restricted to magnitudes TLC can hold. Trusted: JSON -> Literal conversion in harness/src/c09.rs, TLC.",
+        "technique": "TLC-enumerated values and literal spellings with oracle bits, replayed into the literal API",
+    },
+    "C11": {
+        "text": "BristolIO.tla defines the Bristol file model (WellFormedBristol, EvalBristol) and transcribes format_as_bristol; TLC checks the export design on every small SSA circuit (de-aliasing, renumbering, outputs last) and emits each circuit for the real exporter and importer; the written file (parsed row by row) and the re-imported circuit are validated by Trace_Bristol.tla, also for compiled corpus programs; importer totality on the TLC-enumerated edit space of a Bristol text applied to three base exports.",
+        "design_ref": "DESIGN.md §5 C11",
+        "note": "Bounds: SSA circuits <= 2 (quick) / 3 (thorough) gates, <= 3 outputs; corpus exports <= 600 gates and <= 10 input bits (all assignments). The row parser of the exported text in harness/src/c11.rs is trusted.",
+        "technique": "TLA+ export design model checked by TLC; TLC trace validation of real exports/imports; TLC-enumerated file perturbations replayed into the importer",
+    },
     "C13": {
         "text": "Bitonic.tla models the compare-exchange networks (merger with m = previous power of two, sorter with descending/ascending halves) and the join pipeline (padding, tag bit, reversed second array, adjacent windows) and TLC checks them against the sorted-merge join on all 0/1 inputs and all small ascending / non-descending key sequences; every enumerated input is replayed into the real networks (verif_hooks), into compiled for-join programs (judged by GarbleSem's for-join through Trace_Eval.tla: pairs, order, effects and panics only for joined rows) and into compiled `join` built-in programs (Trace_Join.tla: flagged entries exactly the matches, each common key once, unflagged entries zero, flags sorted).",
         "design_ref": "DESIGN.md §5 C13",
